@@ -34,11 +34,10 @@ static inline void *__asan_region_is_poisoned(void *, size_t) { return nullptr; 
 static inline int __asan_address_is_poisoned(const volatile void *) { return 0; }
 #endif
 
-#ifdef FRG_SLAB_TRACK_REGIONS
-const char *verif_harness = "slab_seq_track";
-#else
-const char *verif_harness = "slab_seq";
+#ifndef VERIF_HARNESS_NAME
+#define VERIF_HARNESS_NAME "slab_seq"
 #endif
+const char *verif_harness = VERIF_HARNESS_NAME;
 using namespace verif;
 
 namespace {
@@ -172,6 +171,8 @@ struct P4 : PolCore { SIZES(0x1000, 0x3000, 0x10000, 10) ALIGNED };             
 struct P5 : PolCore { SIZES(0x10000, 0x40000, 0x40000, 13) UNALIGNED };          // 64K pages
 struct P6 : PolCore { SIZES(0x1000, 0x7000, 0x8000, 11) ALIGNED };               // slab not a multiple of the largest class (two whole 8K objects fit behind the header)
 struct P7 : PolCore { SIZES(0x1000, 0x3000, 0x10000, 10) UNALIGNED };
+struct P8 : PolCore { SIZES(0x10000, 0x10000, 0x10000, 9) ALIGNED };             // page == slab == superblock: a large block's pointer is superblock-aligned
+struct P9 : PolCore { SIZES(0x10000, 0x10000, 0x10000, 9) UNALIGNED };
 template<typename P> struct Poisoning : P {
 	void poison(void *p, size_t n) { this->shadow("poison", p, n); ASAN_POISON_MEMORY_REGION(p, n); }
 	void unpoison(void *p, size_t n) { this->shadow("unpoison", p, n); ASAN_UNPOISON_MEMORY_REGION(p, n); }
@@ -192,6 +193,8 @@ template<typename P> struct SoftPoisoning : P {      // same hooks, software sha
 	void unpoison(void *p, size_t n) { this->shadow("unpoison", p, n); E->soft_set((uintptr_t)p, n, true); }
 	void unpoison_expand(void *p, size_t n) { this->shadow("unpoison_expand", p, n); E->soft_set((uintptr_t)p, n, true); }
 };
+template<> struct InfoOf<P8> { static constexpr Info v{"page64K-slab64K-sb64K/aligned/9", 0x10000, 0x10000, 0x10000, 9, true}; };
+template<> struct InfoOf<P9> { static constexpr Info v{"page64K-slab64K-sb64K/unaligned/9", 0x10000, 0x10000, 0x10000, 9, false}; };
 template<typename P> struct InfoOf<Poisoning<P>> : InfoOf<P> {};
 template<typename P> struct InfoOf<SoftPoisoning<P>> : InfoOf<P> {};
 template<typename P> struct IsPoison { static constexpr bool v = false, soft = false; };
@@ -628,15 +631,31 @@ struct Runner {
 
 template<typename P> void go(Ctx &c) { Runner<P> r(c); r.run(); }
 
-void run_config(Ctx &c, unsigned cfg) {
-	switch(cfg) {
-	case 0: go<P0>(c); break; case 1: go<P1>(c); break; case 2: go<P2>(c); break; case 3: go<P3>(c); break;
-	case 4: go<P4>(c); break; case 5: go<P5>(c); break; case 6: go<P6>(c); break; case 7: go<P7>(c); break;
-	case 8: go<Poisoning<P0>>(c); break; case 9: go<Poisoning<P1>>(c); break; case 10: go<Poisoning<P2>>(c); break; case 11: go<Poisoning<P3>>(c); break;
-	case 12: go<Poisoning<P4>>(c); break; case 13: go<Poisoning<P5>>(c); break; case 14: go<Poisoning<P6>>(c); break; case 15: go<Poisoning<P7>>(c); break;
-	case 16: go<SoftPoisoning<P0>>(c); break; case 17: go<SoftPoisoning<P1>>(c); break; case 18: go<SoftPoisoning<P2>>(c); break; case 19: go<SoftPoisoning<P3>>(c); break;
-	case 20: go<SoftPoisoning<P4>>(c); break; case 21: go<SoftPoisoning<P5>>(c); break; case 22: go<SoftPoisoning<P6>>(c); break; default: go<SoftPoisoning<P7>>(c); break;
+template<template<typename> class W> void run_base(Ctx &c, unsigned base) {
+	switch(base) {
+	case 0: go<W<P0>>(c); break; case 1: go<W<P1>>(c); break; case 2: go<W<P2>>(c); break; case 3: go<W<P3>>(c); break; case 4: go<W<P4>>(c); break;
+	case 5: go<W<P5>>(c); break; case 6: go<W<P6>>(c); break; case 7: go<W<P7>>(c); break; case 8: go<W<P8>>(c); break; default: go<W<P9>>(c); break;
 	}
+}
+template<typename P> using Plain = P;
+constexpr unsigned NBASE = 10;
+// variant: 0 plain, 1 poisoning (ASan shadow), 2 poisoning (software shadow)
+// Which variants a binary contains is a build option (VERIF_SLAB_VARIANTS, bit 0 plain, bit 1 poisoning,
+// bit 2 software-shadow poisoning): 30 instantiations in one translation unit compile too slowly.
+#ifndef VERIF_SLAB_VARIANTS
+#define VERIF_SLAB_VARIANTS 3
+#endif
+void run_config(Ctx &c, unsigned base, unsigned variant) {
+	if(!((VERIF_SLAB_VARIANTS >> variant) & 1)) variant = (VERIF_SLAB_VARIANTS & 1) ? 0 : (VERIF_SLAB_VARIANTS & 4) ? 2 : 1;
+#if VERIF_SLAB_VARIANTS & 1
+	if(variant == 0) return run_base<Plain>(c, base);
+#endif
+#if VERIF_SLAB_VARIANTS & 2
+	if(variant == 1) return run_base<Poisoning>(c, base);
+#endif
+#if VERIF_SLAB_VARIANTS & 4
+	if(variant == 2) return run_base<SoftPoisoning>(c, base);
+#endif
 }
 } // namespace
 
@@ -655,11 +674,12 @@ void verif_case(Ctx &c) {
 	// Poisoning policies belong to the quantifier of C03 only: under another focus a read of a
 	// poisoned byte (an ASan report, which cannot be attributed) would be blamed on the wrong property.
 	bool with_poison = c.focus().empty() || c.focus() == "C03" || c.focus() == "C05";
-	unsigned cfg = c.t.pick(16);
+	unsigned cfg = c.t.pick(2 * NBASE);
+	unsigned base = cfg % NBASE, variant = cfg / NBASE;
 	// Under the C04 focus the poisoning configurations use the software shadow: what C04 says about a
 	// poisoning policy (the existing blocks stay usable after a failed map) is checked explicitly.
-	if(!with_poison) { if(c.focus() == "C04" && cfg >= 8) cfg += 8; else cfg &= 7; }
-	run_config(c, cfg);
+	if(!with_poison && variant == 1) variant = c.focus() == "C04" ? 2 : 0;
+	run_config(c, base, variant);
 }
 
 // C04: for base histories (a fixed family of tapes), fail every single map position and every
@@ -669,7 +689,7 @@ void verif_enum(Enum &e) {
 	uint32_t x = 12345;
 	auto lcg = [&]() { x = x * 1664525u + 1013904223u; return x >> 8; };
 	for(unsigned base = 0; base < (e.tier == "thorough" ? 96u : 32u); base++) {
-		unsigned cfg = base % 16;
+		unsigned cfg = base % (2 * NBASE);
 		std::vector<uint32_t> ops;
 		ops.push_back(12 + lcg() % 20);   // nops
 		ops.push_back(1);                 // not the long variant
